@@ -956,7 +956,7 @@ def case_strategy(draw, max_ops=16):
 
 
 def shards(tier, seed):
-    n, per, mx = (32, 30, 14) if tier == "quick" else (256, 75, 16)
+    n, per, mx = (32, 45, 14) if tier == "quick" else (256, 75, 16)
     return [{"n": per, "max_ops": mx, "seed": seed * 1000 + i} for i in range(n)]
 
 
